@@ -61,6 +61,9 @@ def inputs(c):
 def slim(c):
     d = inputs(c)
     d["trace"] = [compact(e) for e in c["trace"]]
+    if c.get("callobs"):
+        d["carrier_calls"] = [{"scope": o["scope"], "kind": o["kind"], "callee_found": o["got"], "caller_xid": o["want"],
+                               "caller_after": compact(o["after"])} for o in c["callobs"]]
     return d
 
 
@@ -161,6 +164,39 @@ def ok_world(c):
     return not c["script"] and c["default"] == "o" and c["cancel"] < 0
 
 
+DUBBO_KEYS = ("SEATA_XID", "seata_xid", "TX_XID", "tx_xid")
+
+
+def hv_first(h):
+    if h["shape"] == "o" or not h["vals"]:
+        return b""
+    return bytes.fromhex(h["vals"][0])
+
+
+def pred_dubbo_forwarded_stale(kind, sender_xid, pre):
+    """carrier.dubbo.no-tx-stale-attachment: a dubbo consumer whose context has NO transaction bound
+    calls with an invocation that still carries an xid attachment under an accepted key"""
+    if kind != "dubbo" or sender_xid:
+        return False
+    return any(bytes.fromhex(h["key"]).decode("latin1") in DUBBO_KEYS and hv_first(h) for h in pre)
+
+
+def call_fails(ob):
+    """one outgoing RPC made from inside a callback: the callee sees exactly the caller's current
+    transaction (none when the scope runs without one), the caller's context is untouched"""
+    who = "scope %d, %s call with %s already in the outgoing headers" % (
+        ob["scope"], ob["kind"], [(bytes.fromhex(h["key"]).decode("latin1"), h["shape"]) for h in (ob["pre"] or [])])
+    if ob["panic"]:
+        return who + ": the integration panicked"
+    a, e = ob["after"], ob["enter"]
+    if (a["xid"], a["role"], a["name"]) != (e["xid"], e["role"], e["name"]):
+        return "%s: the call changed the caller's context to xid=%d role=%s name=%d (was xid=%d role=%s name=%d)" % (
+            who, a["xid"], a["role"], a["name"], e["xid"], e["role"], e["name"])
+    if ob["got"] != ob["want"] and not pred_dubbo_forwarded_stale(ob["kind"], ob["want"], ob["pre"] or []):
+        return "%s: the callee found xid %r, the caller's transaction is %r" % (who, ob["got"], ob["want"])
+    return None
+
+
 # ------------------------------------------------------------------ direct oracle C07
 def oracle_c07(c):
     """the statement of C07 on one real run; returns a list of failed clauses"""
@@ -180,6 +216,11 @@ def oracle_c07(c):
                 fails.append("scope %d: after an inner scope returned its context holds xid=%d role=%s name=%d, "
                              "on entry it held xid=%d role=%s name=%d" % ((e["n"], e["xid"], e["role"], e["name"]) + seen[e["n"]]))
                 break
+    for ob in (c.get("callobs") or []):
+        f = call_fails(ob)
+        if f:
+            fails.append(f)
+            break
     last = tr[-1] if tr else None
     if last and last["k"] == "after" and last["n"] == 0 and not c["entry"]["plain"]:
         ent = c["entry"]
